@@ -263,9 +263,10 @@ Definition prep (n : nat) (a : oarg) : option (list cbspec) :=
                else if Nat.eqb (length l) n then Some l else None
   end.
 
-(* list.index(self._initial): _initial is a name, so only name elements can be equal *)
+(* [s.name if hasattr(s, 'name') else s for s in states].index(self._initial): every form
+   of state reference is compared by its name *)
 Definition is_init (i : option state) (r : sref) : bool :=
-  match i, r with Some n, RName k => Nat.eqb k n | _, _ => false end.
+  match i with Some n => Nat.eqb (ref_id r) n | None => false end.
 Fixpoint index_of {A} (p : A -> bool) (l : list A) : option nat :=
   match l with
   | [] => None
@@ -302,27 +303,23 @@ Definition add_ordered (o : ospec) (b : bm) : bm * option berr :=
   end.
 
 (* ---------------------------------------------------------------- remove_transition *)
-(* Machine.remove_transition compares transition.source / .dest (names) with the elements
-   of the filter: Enum members and State objects never compare equal to a name.
-   HierarchicalMachine.remove_transition converts them to names first. *)
-Definition name_matches (hsm : bool) (r : sref) (n : state) : bool :=
-  match r with
-  | RName k => Nat.eqb k n
-  | REnum k | RObj k => hsm && Nat.eqb k n
-  end.
-Definition src_match (hsm : bool) (f : filt sref) (s : state) : bool :=
-  match f with FWild => true | FList l => existsb (fun r => name_matches hsm r s) l end.
-Definition dst_match (hsm : bool) (f : filt (option sref)) (d : option state) : bool :=
+(* Machine.remove_transition maps the filter elements to names (State objects and Enum
+   members by their .name) and compares them with transition.source / .dest;
+   HierarchicalMachine.remove_transition converts them to state paths first. *)
+Definition name_matches (r : sref) (n : state) : bool := Nat.eqb (ref_id r) n.
+Definition src_match (f : filt sref) (s : state) : bool :=
+  match f with FWild => true | FList l => existsb (fun r => name_matches r s) l end.
+Definition dst_match (f : filt (option sref)) (d : option state) : bool :=
   match f with
   | FWild => true
   | FList l => existsb (fun o => match o, d with
                                  | None, None => true
-                                 | Some r, Some n => name_matches hsm r n
+                                 | Some r, Some n => name_matches r n
                                  | _, _ => false
                                  end) l
   end.
-Definition t_match (hsm : bool) (fs : filt sref) (fd : filt (option sref)) (t : trans) : bool :=
-  src_match hsm fs (t_src t) && dst_match hsm fd (t_dst t).
+Definition t_match (fs : filt sref) (fd : filt (option sref)) (t : trans) : bool :=
+  src_match fs (t_src t) && dst_match fd (t_dst t).
 
 Definition is_nil {A} (l : list A) : bool := match l with [] => true | _ => false end.
 
@@ -350,7 +347,7 @@ Definition remove_transition (trig : event) (fs : filt sref) (fd : filt (option 
   let hsm := h_hsm (b_hdr b) in
   if hsm && filt_enum_bad b fs fd then (b, Some EValue) else
   if has_key trig (b_events b)
-  then (set_events b (remove_ev (t_match hsm fs fd) trig (b_events b)), None)
+  then (set_events b (remove_ev (t_match fs fd) trig (b_events b)), None)
   else if hsm
        then (b, match b_model b with Some _ => Some EAttr | None => None end)  (* delattr(model, trigger) *)
        else (b, Some EKey).                                                     (* self.events[trigger] *)
@@ -477,3 +474,15 @@ Definition refs_ok (b : bm) (t : tspec) : bool :=
 Definition is_enum_form (f : sform) : bool := match f with SEnum _ => true | _ => false end.
 Definition plain_dst (d : dstspec) : bool :=
   match d with DstTo (RName _) | DstSame | DstNone => true | _ => false end.
+
+Definition name_filt_src (f : filt sref) : filt sref :=
+  match f with FWild => FWild | FList l => FList (map name_ref l) end.
+Definition name_filt_dst (f : filt (option sref)) : filt (option sref) :=
+  match f with
+  | FWild => FWild
+  | FList l => FList (map (fun o => match o with Some r => Some (name_ref r) | None => None end) l)
+  end.
+Definition with_states (o : ospec) (l : option (list sref)) : ospec :=
+  mkO l (o_trig o) (o_loop o) (o_incl o) (o_conds o) (o_unless o) (o_before o) (o_after o) (o_prepare o).
+Definition name_tspec (t : tspec) : tspec :=
+  mkT (ts_trig t) (name_src (ts_src t)) (name_dst (ts_dst t)) (ts_cbs t).
